@@ -1,6 +1,6 @@
 ---------------------------- MODULE Trace_TzIndex ----------------------------
-(* Judges recorded conversions of the real moment.py against TzIndex.  Three kinds of cases (one kind  *)
-(* per file), c.k =                                                                                    *)
+(* Judges recorded conversions of the real moment.py against TzIndex.  Three kinds of cases (a file    *)
+(* may mix them; cases are never compared with each other), c.k =                                      *)
 (*  "syn"   a synthetic zone (of the design model, or a random larger one; WellFormed is checked)      *)
 (*          installed into moment's zone table and probed over a window of hours:                      *)
 (*          [inp |-> [z, lo, hi], out |-> [ts, loc, dt]] judged by TzIndex!Fails.  The entries also   *)
